@@ -45,6 +45,10 @@ func C08(run *core.Run) {
 	var mu sync.Mutex
 	recHist := map[string]int64{}
 	var points, ops, skipped, continued int64
+	wideEvery := int64(40)
+	if run.Thorough() {
+		wideEvery = 4
+	}
 	cfg := vsCfg(2, 1, "abcde", true, true, true, true, true, vsGenTail)
 	_, st := vsGenerateAndReplayCfg(run, cfg, nil, func(b *vsBehaviour, n int64, scratch string) {
 		last := b.Steps[len(b.Steps)-1]
@@ -52,6 +56,20 @@ func C08(run *core.Run) {
 			return
 		}
 		conc := vsConcs[int((n+run.Seed)%int64(len(vsConcs)))]
+		if (n+run.Seed)%wideEvery == 0 && last.R == "ok" {
+			// momentum-sized patches: every abstract key stands for 700 real keys
+			wide := vsConc{Name: "wide-700", Keys: vsConcs[0].Keys, Width: 700}
+			rw, err := vsCrashReplay(run, wide, b, scratch)
+			if err != nil {
+				core.Fatal("crash replay infrastructure (wide): %v", err)
+			}
+			mu.Lock()
+			if !rw.skipped {
+				recHist[fmt.Sprintf("wide %s/%s: %d journal record(s)", last.A, last.R, rw.records)]++
+				points += int64(rw.points)
+			}
+			mu.Unlock()
+		}
 		r, err := vsCrashReplay(run, conc, b, scratch)
 		if err != nil {
 			core.Fatal("crash replay infrastructure: %v", err)
@@ -172,7 +190,7 @@ func vsCrashReplay(run *core.Run, conc vsConc, b *vsBehaviour, scratch string) (
 		return vsCheckRaw(conc, p, b.Obs)
 	}(); e != nil {
 		return cr, e
-	} else if len(mm) > 0 && (last.R == "ok") {
+	} else if len(mm) > 0 && (last.R == "ok") && conc.Width <= 1 {
 		// reported by C07; here it only means the oracle states are not trustworthy
 		return cr, nil
 	}
